@@ -273,12 +273,6 @@ class CodedInputStream {
 
   template <typename T, std::enable_if_t<std::is_integral_v<T>, bool> = true>
   void ReadFixedIntegerSlow(T& value) {
-    if (buffer_ptr_ == buffer_end_ptr_) {
-      FillBufferOrThrow();
-      ReadFixedIntegerFastFromArray(value, buffer_ptr_);
-      return;
-    }
-
     uint8_t bytes[sizeof(T)];
     ReadBytes(bytes, sizeof(T));
     uint8_t* bytes_ptr = bytes;
@@ -301,12 +295,6 @@ class CodedInputStream {
 
   template <typename T, std::enable_if_t<std::is_integral_v<T>, bool> = true>
   void ReadVarIntegerSlow(T& value) {
-    if (buffer_ptr_ == buffer_end_ptr_) {
-      FillBufferOrThrow();
-      ReadVarIntegerFastFromArray(value, buffer_ptr_);
-      return;
-    }
-
     value = 0;
     int shift = 0;
     while (true) {
